@@ -382,6 +382,7 @@ func (in *Interp) abiUnpackInto(e *abiEntry, dst Value, data SliceV) Value {
 		}
 		for i, a := range e.Inputs {
 			want := capitaliseABI(a.Name)
+			done := false
 			for f := 0; f < st.NumFields(); f++ {
 				fld := st.Field(f)
 				tag := ""
@@ -390,6 +391,29 @@ func (in *Interp) abiUnpackInto(e *abiEntry, dst Value, data SliceV) Value {
 				}
 				if (tag != "" && tag == a.Name) || (tag == "" && fld.Name() == want) {
 					in.abiAssign(&sv[f], fld.Type(), vals[i])
+					done = true
+				}
+			}
+			if !done {
+				// reflect.Value.FieldByName also finds fields promoted from embedded structs (one level is all
+				// go-zenon uses: the *Key structs embedded in the stored entries)
+				for f := 0; f < st.NumFields() && !done; f++ {
+					fld := st.Field(f)
+					est, isS := fld.Type().Underlying().(*types.Struct)
+					if !fld.Embedded() || !isS {
+						continue
+					}
+					esv, ok := sv[f].(Struct)
+					if !ok {
+						in.unsupported("abi: embedded destination holds %T", sv[f])
+					}
+					for g := 0; g < est.NumFields(); g++ {
+						if est.Field(g).Name() == want {
+							in.abiAssign(&esv[g], est.Field(g).Type(), vals[i])
+							done = true
+							break
+						}
+					}
 				}
 			}
 		}
